@@ -24,6 +24,7 @@ CONSTANTS CNodes,     \* cluster node ids (= origin ids, a subset of Nodes)
           MaxOps, MaxDup,
           MaxExch,    \* bound on the number of repair exchanges started
           WithBatch, WithBulk, WithRestart, WithPurge,
+          NoDirect,     \* TRUE: no direct replication messages and no batches at all: repair exchanges do all the work
           WithTracker,  \* TRUE: the poller skips a peer whose keyspace change stamp equals the one of its last successful sync
           MaxSkew,
           EmitTrace, MinOpsToEmit
@@ -88,8 +89,8 @@ Issue(n, isDel, keys, t) ==
      /\ node' = [node EXCEPT ![n] = local]
      /\ clk' = [clk EXCEPT ![n] = t]
      /\ ops' = ops \cup { [k |-> k, ts |-> ts, del |-> isDel] : k \in keys }
-     /\ net' = net \cup { msg(to) : to \in CNodes \ {n} }
-     /\ queue' = IF WithBatch THEN [queue EXCEPT ![n] = Append(@, [del |-> isDel, items |-> items])] ELSE queue
+     /\ net' = IF NoDirect THEN net ELSE net \cup { msg(to) : to \in CNodes \ {n} }
+     /\ queue' = IF WithBatch /\ ~NoDirect THEN [queue EXCEPT ![n] = Append(@, [del |-> isDel, items |-> items])] ELSE queue
      /\ done' = [p \in Pairs |-> FALSE]
      /\ rep' = [p \in Pairs |-> IF rep[p].phase = "idle" THEN rep[p] ELSE [rep[p] EXCEPT !.fresh = FALSE]]
      /\ See(n, SetOfSeq(items))
@@ -104,7 +105,7 @@ BatchTick(n) ==
       msg(to) == [to |-> to, kind |-> "batch", del |-> FALSE, items |-> <<>>, cts |-> clk[n],
                   removed |-> Cat(TRUE), modified |-> Cat(FALSE)]
   IN /\ WithBatch /\ queue[n] # <<>>
-     /\ net' = net \cup { msg(to) : to \in CNodes \ {n} }
+     /\ net' = IF NoDirect THEN net ELSE net \cup { msg(to) : to \in CNodes \ {n} }
      /\ queue' = [queue EXCEPT ![n] = <<>>]
      /\ UNCHANGED <<node, clk, ops, rep, done, chg, trk, seen, dups, exch, now>>
      /\ Log([a |-> "tick", n |-> n])
